@@ -1154,12 +1154,21 @@ func (s *Server) cleanupExpiredLeases() {
 			pool.Release(lease.IP)
 		}
 
-		// Remove from fast path cache
+		// Remove from fast path cache (MAC, VLAN pair and circuit-id keys, as on RELEASE)
 		if s.loader != nil {
 			hwAddr, _ := net.ParseMAC(mac)
 			if hwAddr != nil {
 				macU64 := ebpf.MACToUint64(hwAddr)
 				s.loader.RemoveSubscriber(macU64)
+			}
+			if (lease.STag > 0 || lease.CTag > 0) && s.loader.HasVLANSupport() {
+				s.loader.RemoveVLANSubscriber(lease.STag, lease.CTag)
+			}
+			if len(lease.CircuitID) > 0 {
+				s.loader.RemoveCircuitIDMapping(lease.CircuitID)
+				if s.loader.HasCircuitIDSubscriberSupport() {
+					s.loader.RemoveCircuitIDSubscriber(lease.CircuitID)
+				}
 			}
 		}
 	}
